@@ -8,7 +8,7 @@ ID = "C08"
 NEEDS_CLI = True
 RULE = ("ops td.hash <document> -> (domain separator, message hash, digest), td.encode_type <types> <name> (hook), td.kind <type string> (hook): "
         "random type graphs (1..6 structs, members in random order, shared and repeated dependencies, self/mutual recursion through arrays, "
-        "multi-dimensional fixed/dynamic arrays, every atomic type), values generated type-directed so documents are accepted; every permutation of "
+        "multi-dimensional fixed/dynamic arrays, every atomic type; primary type = first struct, any other struct, or EIP712Domain itself with a message of its own; EIP712Domain as a member type), values generated type-directed so documents are accepted; every permutation of "
         "member order for dependency-bearing structs of <= 4 members; all atomic type strings; the three repo fixtures; "
         "a random sample of the cases is re-run through every sub-command that reaches the same code (vlib/routes.py); non-trivial = distinct document whose primary type has >= 1 struct dependency; judge = executable EIP-712 spec (Spec.Eip712)")
 EXHAUSTIVE_SWEEPS = {"quick": ["all 24 member orders of the 4-member dependency witness", "all 100 atomic type strings (td.kind)"],
@@ -37,6 +37,31 @@ def gen(rng, tier):
             tj = json.dumps(doc["types"])
             for name in list(types)[:3]:
                 cases.append(Case("td.encode_type %s %s" % (hx(tj), hx(name)), tags=("encode_type",), nontrivial=has_dep(types, name)))
+    # any defined type can be the primary type: another struct of the graph, or the domain type itself with a message
+    # that is (or is not) the domain value; the domain type used as a member type
+    for _ in range(n // 4):
+        doc, types, dom = tdgen.rand_doc(rng)
+        alltypes = dict(types)
+        alltypes["EIP712Domain"] = dom
+        r = rng.random()
+        if r < 0.4:
+            doc["primaryType"] = "EIP712Domain"
+            doc["message"] = dict(doc["domain"]) if rng.random() < 0.25 else {n_: tdgen.rand_atom(rng, t) for n_, t in dom}
+            tag = "primary-is-domain"
+        elif r < 0.7:
+            name = rng.choice(list(types))
+            doc["primaryType"] = name
+            doc["message"] = tdgen.rand_value(rng, types, name)
+            tag = "primary-is-other-struct"
+        else:
+            prim = doc["primaryType"]
+            extra = rng.choice([("dom", "EIP712Domain"), ("doms", "EIP712Domain[]"), ("dom2", "EIP712Domain[2]")])
+            doc["types"][prim] = doc["types"][prim] + [{"name": extra[0], "type": extra[1]}]
+            t2 = dict(alltypes)
+            t2[prim] = list(types[prim]) + [extra]
+            doc["message"] = tdgen.rand_value(rng, t2, prim)
+            tag = "domain-as-member"
+        cases.append(Case("td.hash " + hx(tdgen.dumps(doc)), tags=("random", tag)))
     # member-order permutations: the dependency witness (B[] b, A a, A a2) and friends
     base = {"A": [("x", "uint8")], "B": [("y", "bool"), ("c", "C")], "C": [("z", "string")]}
     members = [("b", "B[]"), ("a", "A"), ("a2", "A"), ("s", "string")]
